@@ -197,6 +197,7 @@ func setNumKeysAndValues() {
 		log.Errorf("setNumKeysAndValues: failed to get tags trees: %v", err)
 		return
 	}
+	defer query.CloseTagsTrees(tagsTreeReaders)
 
 	keys := make(map[string]struct{})
 	values := make(map[string]struct{})
